@@ -5,6 +5,7 @@ pub mod c07;
 pub mod c08;
 pub mod c09;
 pub mod c12;
+pub mod c15;
 pub mod c16;
 pub mod c17;
 
@@ -16,6 +17,7 @@ pub fn lookup(id: &str) -> Option<fn(&Run)> {
         "C08" => c08::run,
         "C09" => c09::run,
         "C12" => c12::run,
+        "C15" => c15::run,
         "C16" => c16::run,
         "C17" => c17::run,
         _ => return None,
